@@ -4,14 +4,23 @@
     file, a sequence of operations (Execute / replace the file + OnChanged / GET JWKS)
     and what the real finalizer, signer and management handler did.
       v_corr   the model's run equals the observation
-      v_prop   the specification's predicate [run_ok] holds of the observation, and
-               every freshly issued token's iat lies in the driver's clock bracket
-      guards   1 = C16-F1
+      v_prop   [run_prop] (what the property statement fixes, from the specification) holds of
+               the observation, and every freshly issued token's iat lies in the driver's
+               clock bracket
+      guards   1 = C16-F1, 2 = C16-F2, each only when the tree is expected to lack that repair
+               (never under [FX true true])
 
     Stream "skeleton": one case = the lock/field-access skeleton of jwtSigner's methods
     extracted from jwt_signer.go by the driver (go/ast).
       v_corr   the skeleton is well-formed (the hypothesis of C16_consistent_pair)
-      v_prop   exhaustive exploration of a small thread set finds no torn observation *)
+      v_prop   exhaustive exploration of a small thread set finds no torn observation
+
+    Stream "race" ([check_race]): one case = what concurrent Execute / JWKS calls saw under the
+    race detector while a reloader cycled through generations of the key store.
+      v_corr = v_prop   every (kid, alg, verifying key) triple and every JWKS kid list is one
+               generation's, every token verified in its window, no call failed
+
+    The streams "conc" and "exec-skeleton" are evaluated by Run/Eval_C16Conc.v. *)
 From HV Require Export Base.Prelude C16.Model C16.Spec C16.Locks.
 
 Record case := {
